@@ -127,6 +127,11 @@ func isolationCheck(ops []string, full *monitor.Trace, engine string, br map[str
 				// one tenant's payout depositing with another tenant): that is the account's affair, not a tenant's view
 				break
 			}
+			if f := strings.Fields(ops[i]); fs.Res != as.Res && len(f) > 0 && f[0] == "tx" && monitor.TxSeveralTenants(f) {
+				// a transaction with messages of several tenants is all or nothing: its outcome depends on the other tenants' part of it,
+				// which the statement's pair of histories does not take apart
+				break
+			}
 			if projectRes(fs.Res, k) != projectRes(as.Res, k) {
 				return []monitor.Violation{{Property: "C13", Key: "isolation", Step: i,
 					What: fmt.Sprintf("tenant %d: op %q answers %q with the other tenants active and %q alone", k, ops[i], fs.Res, as.Res)}}
